@@ -13,6 +13,7 @@ import (
 	"github.com/Fantom-foundation/lachesis-base/inter/pos"
 	"github.com/Fantom-foundation/lachesis-base/kvdb/memorydb"
 	"github.com/Fantom-foundation/lachesis-base/utils/adapters"
+	"github.com/Fantom-foundation/lachesis-base/utils/cachescale"
 	"github.com/Fantom-foundation/lachesis-base/vecfc"
 )
 
@@ -74,6 +75,7 @@ func CmdVecReplay(args []string) int {
 		}
 	}
 	var sample *VecState
+	var shared *vecfc.Index
 	for sc.Scan() {
 		if len(sc.Bytes()) == 0 {
 			continue
@@ -90,7 +92,18 @@ func CmdVecReplay(args []string) int {
 		}
 		vals := b.Build()
 		store := map[hash.Event]dag.Event{}
-		ix := vecfc.NewIndex(crit, vecfc.LiteConfig())
+		// every other DAG is indexed by ONE long-lived index object that is Reset() to the new validator set and a new
+		// database (the event ids repeat from DAG to DAG, the weights and shapes differ): nothing may survive a Reset
+		var ix *vecfc.Index
+		if stats["states"]%2 == 0 {
+			if shared == nil {
+				shared = vecfc.NewIndex(crit, vecfc.DefaultConfig(cachescale.Identity))
+			}
+			ix = shared
+			stats["states_on_reused_index"]++
+		} else {
+			ix = vecfc.NewIndex(crit, vecfc.LiteConfig())
+		}
 		ix.Reset(vals, memorydb.New(), func(h hash.Event) dag.Event { return store[h] })
 		ad := &adapters.VectorToDagIndexer{Index: ix}
 		evs := make([]*tdag.TestEvent, len(st.Events))
